@@ -460,6 +460,9 @@ def _cross_process(res, cfg):
             bad = sorted(k for k, ok in c.get("flags", {}).items() if not ok)
             if names or bad or (c["state"] is not None and c["state"] != e["state"]):
                 diff = {n: [_lookup(e["obs"], n), _lookup(c["obs"], n)] for n in names[:12]}
+                if "<unpickle>" in c["obs"]:
+                    # the pickle could not even be loaded over there: say so instead of listing every accessor as missing
+                    diff = {"<unpickle>": [["ok", "loaded in the writing process"], c["obs"]["<unpickle>"]]}
                 for k in bad:
                     diff["other_process." + k] = [True, False]
                 res["violations"].append({"kind": "twin_mismatch", "when": "cross_process_other_hash_salt", "orig": e["idx"], "twin": None,
